@@ -50,6 +50,28 @@ def check_equalities(ck, F, rule_prefix):
         own = [fl['name'] for fl in F.rec[cls]['fields']]
         if own:
             comps = own          # a value class with data members: every member is a component (whatever it is called)
+            # ... and every component is itself something spelled (a String, a Logogram, a Linkage, a Calling_convention): two
+            # values with the same spelling must be equal, so nothing else (a cached number, a flag) may take part in equality
+            SPELLED = set(COMPONENTS) | {'ipr::String'}
+            alien = []
+            for fl in F.rec[cls]['fields']:
+                base = fl['t'].replace('const ', '').strip().rstrip('&* ').strip()
+                if not (base in SPELLED or (base in F.rec and any(a in SPELLED for a in F.ancestors(base)))):
+                    alien.append(f'{fl["name"]} : {fl["t"]}')
+            comps = [n_ for n_ in own if n_ not in {a.split(' : ')[0] for a in alien}]      # what equality must look at
+            if alien:
+                from facts import walk
+                eqm = [m for m in F.rec[cls]['methods'] if m['name'] == 'operator==']
+                handwritten = [F.fn.get(m['id']) for m in eqm if not m.get('defaulted') and not m.get('implicit')]
+                names_ = {a.split(' : ')[0] for a in alien}
+                if handwritten and all(h is not None and not any(n.get('k') == 'member' and n.get('name') in names_ for n in walk(h.get('body')))
+                                       for h in handwritten):
+                    alien = []          # equality is written by hand and does not look at them
+            if alien:
+                ck.fail(R, cls + '/components', f'{cls} holds {alien} next to its spelling: a member-wise equality then distinguishes two values that are '
+                        'spelled the same (one read back from a decomposition, one built from the logogram)', loc=F.rec[cls]['loc'])
+            else:
+                ck.ok(R, cls + '/components')
         eqs = [f for f in F.fns_in(cls) if f['name'] == 'operator==' and len(f['params']) == 1]
         if not eqs:
             # defaulted comparison with no synthesised body in any unit: judged from the declaration
